@@ -191,8 +191,29 @@ func simulateReads(f *ssa.Function, prm *ssa.Parameter, n int64) (total int64, w
 // leaf expressions (parameters, field loads); `stop` ends the run when it returns true for an
 // instruction. A branch whose condition cannot be evaluated ends the run with ok == false.
 func miniRun(b, pred *ssa.BasicBlock, input func(ssa.Value) (int64, bool), stop func(ssa.Instruction) bool) (at ssa.Instruction, ok bool) {
+	at, ok, _ = miniRunEval(b, pred, input, stop)
+	return at, ok
+}
+
+// runIntFunc interprets f from its entry with miniRun and returns the integer value of its first
+// result on the path taken; input supplies parameters and field loads.
+func runIntFunc(f *ssa.Function, input func(ssa.Value) (int64, bool)) (int64, bool) {
+	if f == nil || len(f.Blocks) == 0 {
+		return 0, false
+	}
+	at, ok, ev := miniRunEval(f.Blocks[0], nil, input, func(ssa.Instruction) bool { return false })
+	ret, isRet := at.(*ssa.Return)
+	if !ok || !isRet || len(ret.Results) == 0 {
+		return 0, false
+	}
+	return ev(ret.Results[0])
+}
+
+// miniRunEval is miniRun that also hands back the evaluator over the state reached.
+func miniRunEval(b, pred *ssa.BasicBlock, input func(ssa.Value) (int64, bool), stop func(ssa.Instruction) bool) (at ssa.Instruction, ok bool, ev func(ssa.Value) (int64, bool)) {
 	ints := map[ssa.Value]int64{}
 	var evalI func(v ssa.Value) (int64, bool)
+	ev = func(v ssa.Value) (int64, bool) { return evalI(v) }
 	evalI = func(v ssa.Value) (int64, bool) {
 		if k, ok := kit.ConstInt(v); ok {
 			return k, true
@@ -217,11 +238,11 @@ func miniRun(b, pred *ssa.BasicBlock, input func(ssa.Value) (int64, bool), stop 
 	i := 0
 	for steps := 0; steps < 100000; steps++ {
 		if i >= len(b.Instrs) {
-			return nil, false
+			return nil, false, ev
 		}
 		in := b.Instrs[i]
 		if stop(in) {
-			return in, true
+			return in, true, ev
 		}
 		switch x := in.(type) {
 		case *ssa.Phi:
@@ -267,19 +288,19 @@ func miniRun(b, pred *ssa.BasicBlock, input func(ssa.Value) (int64, bool), stop 
 				}
 			}
 		case *ssa.Return:
-			return in, true
+			return in, true, ev
 		case *ssa.Jump:
 			pred, b, i = b, b.Succs[0], 0
 			continue
 		case *ssa.If:
 			c, ok := evalI(x.Cond)
 			if !ok {
-				return in, false
+				return in, false, ev
 			}
 			pred, b, i = b, b.Succs[int(1-c)], 0
 			continue
 		}
 		i++
 	}
-	return nil, false
+	return nil, false, ev
 }
